@@ -280,6 +280,8 @@ def run(chk):
         chk.count("density_scatter")
         if real[0] != "ok":
             chk.violation(f"C19|density_scatter|raises-{real[1]}", "density_scatter raised", {"x": x, "y": y})
+        elif not ax.collections:
+            chk.violation("C19|density_scatter|nothing-drawn", "discrete density_scatter returned without drawing a scatter collection on the axes", {"x": x, "y": y, "kwargs": str(dkw)})
         else:
             sc = ax.collections[0]
             pts = [tuple(float(v) for v in p) for p in sc.get_offsets().tolist()]
@@ -368,6 +370,11 @@ def run(chk):
         if not np.allclose(link, wl) or list(clus) != list(wc):
             chk.violation("C19|similarity_clustermap|linkage", "similarity_clustermap does not return the linkage / clusters of hierarchical "
                           "clustering of the summed chain distances (with the linkage / cluster options given)", meta)
+        if getattr(cg, "dendrogram_row", None) is None or getattr(cg, "dendrogram_col", None) is None:
+            chk.violation("C19|similarity_clustermap|no-dendrogram", "the cluster map was drawn without row / column dendrograms: the heat map cannot be in "
+                          "dendrogram order", meta)
+            plt.close("all")
+            continue
         ind = [int(i) for i in cg.dendrogram_row.reordered_ind]
         if ind != [int(i) for i in hc.dendrogram(wl, no_plot=True)["leaves"]]:
             chk.violation("C19|similarity_clustermap|dendrogram-order", "the heat map is not ordered by the dendrogram of the returned linkage", meta)
